@@ -1,7 +1,7 @@
 #!/bin/bash
 # runs every thorough command sequentially with a per-property cap; prints a summary line each
 bash tools/build.sh >/dev/null 2>&1
-for p in C20 C09 C10 C12 C16 C17 C18 C15 C13 C07 C14 C11 C02 C05 C08 C19 C01 C03 C04; do
+for p in C02 C05 C03 C04 C01 C08 C19 C14 C11 C13 C17 C07 C20 C09 C10 C12 C16 C18 C15; do
   s=$(date +%s); timeout 60m ./bin/vcheck run -tier thorough -j 8 $p > thorough_$p.log 2>&1; rc=$?; e=$(date +%s)
   echo "$p exit=$rc $((e-s))s known=$(grep -c '^KNOWN' thorough_$p.log) viol=$(grep -c '^VIOLATION' thorough_$p.log) inconcl=$(grep -c '^INCONCLUSIVE' thorough_$p.log)"
   grep -E "^INCONCLUSIVE|^VIOLATION" thorough_$p.log | cut -c1-220 | head -8
